@@ -2,7 +2,7 @@
    final workspace is known path by path (shared by C10_converges / _idempotent / _relink /
    _link_record). *)
 From Coq Require Import NArith List Bool Lia.
-From DvcData Require Import Base.Val Base.PyBase Gen.PyTypes Gen.ODiff Gen.Relink Model.ObjCheckout Proofs.ObjCheckoutProofs Proofs.ObjCheckoutProofs2 Proofs.ObjCoBase Proofs.ObjCoRelinkList.
+From DvcData Require Import Base.Val Base.PyBase Gen.PyTypes Gen.ODiff Gen.Relink Model.ObjCheckout Proofs.ObjCoTie Proofs.ObjCheckoutProofs Proofs.ObjCheckoutProofs2 Proofs.ObjCoBase Proofs.ObjCoRelinkList.
 Import ListNotations.
 Open Scope N_scope.
 
@@ -53,7 +53,7 @@ Qed.
 Lemma file_step_fail g c ch cur x : file_step g c ch cur = FFail x -> x = cur \/ x = None.
 Proof.
   unfold file_step. destruct (new_oid ch) as [o|]; [|intros E; injection E as <-; now left].
-  intros E. apply post_info_fail in E. destruct (cf_decide _ _ _ _ _).
+  rewrite cf_gen_eq. intros E. apply post_info_fail in E. destruct (cf_decide _ _ _ _ _).
   - destruct (guard_step g (ch_key ch) false cur) as [y|] eqn:Eg; [|discriminate].
     apply link_step_fail in E. subst x. eapply guard_step_cases; eauto.
   - discriminate.
@@ -62,7 +62,7 @@ Proof.
 Qed.
 Lemma file_step_ok_unb g c ch cur x : file_step g c ch cur = FOk x -> forall n, x = Some n -> f_broken n = false.
 Proof.
-  unfold file_step. destruct (new_oid ch) as [o|]; [|discriminate]. intros E. now apply post_info_ok in E.
+  unfold file_step. destruct (new_oid ch) as [o|]; [|discriminate]. rewrite cf_gen_eq. intros E. now apply post_info_ok in E.
 Qed.
 
 Lemma run_del_unb g chs : forall w, unb w -> unb (fst (run_del g chs w)).
@@ -168,7 +168,7 @@ Lemma file_step_forced k o co : kassoc k tgt = Some o -> oassoc o c = Some co ->
   exists n', file_step g c (mk k) (kassoc k w0) = FOk (Some n') /\ f_broken n' = false /\
              (n' = link_node t0 o co (g_now g) \/ kept k o n').
 Proof.
-  intros Et Eo. unfold file_step. rewrite new_oid_mk, Et.
+  intros Et Eo. unfold file_step. rewrite new_oid_mk, Et, cf_gen_eq.
   assert (Hfresh : post_info (link_step g c o None) = FOk (Some (link_node t0 o co (g_now g)))).
   { rewrite (link_step_none g c o co t0 lrest Hlinks Eo). simpl. now rewrite link_node_unbroken. }
   unfold cf_decide. rewrite truthy_old_mk'.
